@@ -95,4 +95,48 @@ def specHistory (nsrv : Nat) (ro : List Nat) (held : SetMap) : List SelOp :=
 def toldState (total nsrv : Nat) (ro : List Nat) (held : SetMap) : SelState :=
   (SelState.init total).after (specHistory nsrv ro held)
 
+/-! ### The allocation rounds of `Tahoe2ServerSelector.get_shareholders`, as far as the selector sees them
+
+One pass of the `while` loop: `get_share_placements()`, one `allocate_buckets` query to every
+tracker the plan gives shares, then `_buckets_allocated(res, tracker, shares_to_ask)` for every
+answer.  Towards the selector that handler does exactly one thing: when `res` is a `Failure`
+(whatever kind: an exception from the server, a lost connection, the uploader's own 15 s
+`timeout_call`) it calls `mark_readonly_peer(serverid)` and swallows the `KeyError` of a server
+that was not writable.  A server that answered -- with or without progress, full or not -- is
+*not* reported to the selector (`_make_readonly` only moves the tracker between the uploader's
+local lists; `alreadygot` shares go to `preexisting_shares`, not to `add_peer_with_share`). -/
+
+/-- how a server answered its `allocate_buckets` query in one round -/
+inductive Answer where
+  | ok              -- answered, some progress
+  | noProgress      -- answered, nothing allocated / already there (a full server)
+  | error           -- the remote call raised
+  | timeout         -- no answer within the 15 s query timeout
+  | disconnected    -- connection lost
+deriving Repr, DecidableEq
+
+/-- `isinstance(res, failure.Failure)` in `_buckets_allocated` -/
+def Answer.failed : Answer → Bool
+  | .error | .timeout | .disconnected => true
+  | .ok | .noProgress => false
+
+/-- what one round's answers do to the selector: one `allocationFailed` per failed query, in the
+order the answers are handled -/
+def roundOps (answers : List (Nat × Answer)) : List SelOp :=
+  answers.filterMap (fun x => if x.2.failed then some (SelOp.allocationFailed x.1) else none)
+
+/-- selector state after the answers of one round were handled -/
+def SelState.afterRound (s : SelState) (answers : List (Nat × Answer)) : SelState :=
+  s.after (roundOps answers)
+
+/-- selector states at the successive `get_share_placements()` calls: before the first round,
+after the first, … -/
+def SelState.roundStates (s : SelState) : List (List (Nat × Answer)) → List SelState
+  | [] => [s]
+  | r :: rest => s :: SelState.roundStates (s.afterRound r) rest
+
+/-- the plans of the successive rounds -/
+def SelState.roundPlans (cfg : Cfg) (s : SelState) (rounds : List (List (Nat × Answer))) : List Placement :=
+  (s.roundStates rounds).map (SelState.plan cfg)
+
 end Tahoe.Happiness
